@@ -540,34 +540,34 @@ def load(f, **options):  # type: (typing.IO, **typing.Any) -> canmatrix.CanMatri
         # if 1==1:
             if follow_up == _FollowUps.SIGNAL_COMMENT:
                 try:
-                    comment += "\n" + l.decode(dbc_comment_encoding).replace('\\"', '"')
+                    comment += "\n" + line.rstrip(b"\r\n").decode(dbc_comment_encoding).replace('\\"', '"')
                 except:
                     logger.error("Error decoding line: %d (%s)" % (i, line))
                 if re.match(r'.*" *;\Z',l.decode(dbc_import_encoding).strip()) is not None:
                     follow_up = _FollowUps.NOTHING
                     if signal is not None:
-                        signal.add_comment(comment[:-1].strip()[:-1])
+                        signal.add_comment(comment.rstrip()[:-1].rstrip()[:-1])
                 continue
             elif follow_up == _FollowUps.FRAME_COMMENT:
                 try:
-                    comment += "\n" + l.decode(dbc_comment_encoding).replace('\\"', '"')
+                    comment += "\n" + line.rstrip(b"\r\n").decode(dbc_comment_encoding).replace('\\"', '"')
                 except:
                     logger.error("Error decoding line: %d (%s)" % (i, line))
                 if re.match(r'.*" *;\Z',l.decode(dbc_import_encoding).strip()) is not None:
                     follow_up = _FollowUps.NOTHING
                     if frame is not None:
-                        frame.add_comment(comment[:-1].strip()[:-1])
+                        frame.add_comment(comment.rstrip()[:-1].rstrip()[:-1])
                 continue
             elif follow_up == _FollowUps.BOARD_UNIT_COMMENT:
                 try:
                     comment += "\n" + \
-                        l.decode(dbc_comment_encoding).replace('\\"', '"')
+                        line.rstrip(b"\r\n").decode(dbc_comment_encoding).replace('\\"', '"')
                 except:
                     logger.error("Error decoding line: %d (%s)" % (i, line))
                 if re.match(r'.*" *;\Z',l.decode(dbc_import_encoding).strip()) is not None:
                     follow_up = _FollowUps.NOTHING
                     if board_unit is not None:
-                        board_unit.add_comment(comment[:-1].strip()[:-1])
+                        board_unit.add_comment(comment.rstrip()[:-1].rstrip()[:-1])
                 continue
             decoded = l.decode(dbc_import_encoding).strip()
             if decoded.startswith("BO_ "):
@@ -703,7 +703,7 @@ def load(f, **options):  # type: (typing.IO, **typing.Any) -> canmatrix.CanMatri
                     regexp = re.compile(pattern)
                     regexp_raw = re.compile(pattern.encode(dbc_import_encoding))
                     temp = regexp.match(decoded)
-                    temp_raw = regexp_raw.match(l)
+                    temp_raw = regexp_raw.match(line.lstrip().rstrip(b"\r\n"))  # keep the blanks at the end of the first line
                     if temp:
                         frame = get_frame_by_id(arbitration_id_from_compound(int(temp.group(1))))
                         signal = frame.signal_by_name(temp.group(2))
@@ -737,7 +737,7 @@ def load(f, **options):  # type: (typing.IO, **typing.Any) -> canmatrix.CanMatri
                     regexp = re.compile(pattern)
                     regexp_raw = re.compile(pattern.encode(dbc_import_encoding))
                     temp = regexp.match(decoded)
-                    temp_raw = regexp_raw.match(l)
+                    temp_raw = regexp_raw.match(line.lstrip().rstrip(b"\r\n"))  # keep the blanks at the end of the first line
                     if temp:
                         frame = get_frame_by_id(arbitration_id_from_compound(int(temp.group(1))))
                         try:
@@ -767,7 +767,7 @@ def load(f, **options):  # type: (typing.IO, **typing.Any) -> canmatrix.CanMatri
                     regexp = re.compile(pattern)
                     regexp_raw = re.compile(pattern.encode(dbc_import_encoding))
                     temp = regexp.match(decoded)
-                    temp_raw = regexp_raw.match(l)
+                    temp_raw = regexp_raw.match(line.lstrip().rstrip(b"\r\n"))  # keep the blanks at the end of the first line
                     if temp:
                         board_unit = db.ecu_by_name(temp.group(1))
                         if board_unit:
